@@ -12,7 +12,9 @@ for f in sorted(glob.glob(f"/verif/replays/{prop}-*.json"))[:int(os.environ.get(
     d = json.load(open(f))
     print("*", d.get("what", "")[:600])
     c = d.get("case") or {}
-    if c:
+    if c and "definition" not in c:
+        print("   ", {k: (str(v)[:300]) for k, v in c.items() if k != "repro"})
+    elif c:
         print("   ", c.get("definition", "").split("#define K0 0\n")[-1].replace("\n", " ")[:400],
               {k: c.get(k) for k in ("endian", "align", "compiled", "pointer", "data", "field", "value", "pos") if k in c})
     for x in d.get("disagreements", [])[:6]:
